@@ -9,7 +9,11 @@
   are proved over every linearly ordered field.
 -/
 import Alpaqa.Proofs.OcpInv
+import Alpaqa.Proofs.OcpLoop
+import Alpaqa.Proofs.OcpFuel
+import Alpaqa.Proofs.OcpExample
 import Alpaqa.Proofs.Basic
+import Alpaqa.Props.C15
 
 namespace Alpaqa.Props.C03_Ocp
 open Alpaqa Alpaqa.Ocp Alpaqa.Gen
@@ -73,6 +77,84 @@ theorem ocp_y_errz_of_returned_u (O : Oracles α) (dir : Dir D α) (P : Prob α)
       writeSolution P (run O dir P d0 pr stop oot u0 y mu errz0 gV gQ gS e0).u
         (O.fwd (run O dir P d0 pr stop oot u0 y mu errz0 gV gQ gS e0).u).2 y mu errz0 :=
   ((ocp_exit_contract O dir P d0 pr stop oot u0 y mu errz0 gV gQ gS e0 hτ hfuel).1 hw).2
+
+/-- Where a solve can end (as `Props/C06_Ocp.ocp_run_cases`). -/
+theorem ocp_run_cases' (O : Oracles α) (dir : Dir D α) (P : Prob α) (d0 : D) (pr : Params α)
+    (stop : Nat → Bool) (oot : Bool) (u0 y mu errz0 gV gQ : Vec α) (gS e0 : α)
+    (hτ : TauSentinelOK α)
+    (hfuel : (run O dir P d0 pr stop oot u0 y mu errz0 gV gQ gS e0).fuelOut = false) :
+    ((run O dir P d0 pr stop oot u0 y mu errz0 gV gQ gS e0).wrote = false ∧
+      (run O dir P d0 pr stop oot u0 y mu errz0 gV gQ gS e0).callbacks = []) ∨
+    ((run O dir P d0 pr stop oot u0 y mu errz0 gV gQ gS e0).exc ≠ .none ∧
+      (run O dir P d0 pr stop oot u0 y mu errz0 gV gQ gS e0).wrote = false) ∨
+    ExitAtHead O P pr stop oot u0 y mu errz0 (run O dir P d0 pr stop oot u0 y mu errz0 gV gQ gS e0) := by
+  unfold run at hfuel ⊢
+  cases hi : initState O P d0 pr stop u0 gV gQ gS e0 with
+  | inl t => left; exact ⟨rfl, rfl⟩
+  | inr s =>
+    right
+    simp only [hi] at hfuel ⊢
+    have hs := initState_good O P d0 pr stop u0 gV gQ gS e0 s hi
+    have hf0 : s.fuelOut = false := by
+      rcases Bool.eq_false_or_eq_true s.fuelOut with hc | hc
+      · have := mainLoop_fuelOut_mono O dir P pr stop oot u0 y mu errz0 (pr.maxIter + 2) s hc
+        rw [this] at hfuel; exact absurd hfuel (by decide)
+      · exact hc
+    rcases mainLoop_spec O dir P pr stop oot u0 y mu errz0 _ s hs.1 (by rw [hs.2]; omega) hτ hf0 hfuel
+      with h | h
+    · left
+      refine ⟨h, ?_⟩
+      have hok := mainLoop_ok O dir P pr stop oot u0 y mu errz0 _ s hs.1 hτ hf0 hfuel
+      rcases Bool.eq_false_or_eq_true
+        (mainLoop O dir P pr stop oot u0 y mu errz0 (pr.maxIter + 2) s).wrote with hw | hw
+      · exfalso
+        revert h hw
+        exact mainLoop_exc_wrote O dir P pr stop oot u0 y mu errz0 (pr.maxIter + 2) s
+      · exact hw
+    · right; exact h
+where
+  mainLoop_exc_wrote (O : Oracles α) (dir : Dir D α) (P : Prob α) (pr : Params α) (stop : Nat → Bool)
+      (oot : Bool) (u0 y mu errz0 : Vec α) (fuel : Nat) (s : St α D) :
+      (mainLoop O dir P pr stop oot u0 y mu errz0 fuel s).exc ≠ .none →
+      (mainLoop O dir P pr stop oot u0 y mu errz0 fuel s).wrote = true → False := by
+    induction fuel generalizing s with
+    | zero => simp [mainLoop, excResult]
+    | succ f ih =>
+      unfold mainLoop
+      cases hes : (headStep P pr stop oot s).2 with
+      | none => simp [excResult]
+      | some es =>
+        simp only []
+        split_ifs
+        · simp [exitBlock]
+        · simp [excResult]
+        · exact ih _
+
+/-- **The outputs are overwritten exactly when** the solve returned from a loop head (progress callback
+    ran, no exception) **with status `Converged` / `Interrupted`, or `always_overwrite_results` is set**;
+    on the early `NotFinite` return and on every exception nothing is written. -/
+theorem ocp_wrote_iff (O : Oracles α) (dir : Dir D α) (P : Prob α) (d0 : D) (pr : Params α)
+    (stop : Nat → Bool) (oot : Bool) (u0 y mu errz0 gV gQ : Vec α) (gS e0 : α)
+    (hτ : TauSentinelOK α)
+    (hfuel : (run O dir P d0 pr stop oot u0 y mu errz0 gV gQ gS e0).fuelOut = false) :
+    ((run O dir P d0 pr stop oot u0 y mu errz0 gV gQ gS e0).exc = .none →
+      (run O dir P d0 pr stop oot u0 y mu errz0 gV gQ gS e0).callbacks ≠ [] →
+      (run O dir P d0 pr stop oot u0 y mu errz0 gV gQ gS e0).wrote =
+        ((run O dir P d0 pr stop oot u0 y mu errz0 gV gQ gS e0).stats.status == .Converged ||
+         (run O dir P d0 pr stop oot u0 y mu errz0 gV gQ gS e0).stats.status == .Interrupted ||
+         pr.alwaysOverwrite)) ∧
+    (((run O dir P d0 pr stop oot u0 y mu errz0 gV gQ gS e0).exc ≠ .none ∨
+      (run O dir P d0 pr stop oot u0 y mu errz0 gV gQ gS e0).callbacks = []) →
+      (run O dir P d0 pr stop oot u0 y mu errz0 gV gQ gS e0).wrote = false) := by
+  rcases ocp_run_cases' O dir P d0 pr stop oot u0 y mu errz0 gV gQ gS e0 hτ hfuel with h | h | h
+  · exact ⟨fun _ hc => absurd h.2 hc, fun _ => h.1⟩
+  · exact ⟨fun hc _ => absurd hc h.1, fun _ => h.2⟩
+  · obtain ⟨sh, eps, status, _, _, _, _, _, hr⟩ := h
+    rw [hr]
+    refine ⟨fun _ _ => by simp [exitBlock], fun hor => ?_⟩
+    rcases hor with hx | hc
+    · simp [exitBlock] at hx
+    · simp [exitBlock] at hc
 
 end structural
 
@@ -148,19 +230,156 @@ theorem boxOK_tile (N : Nat) (lb ub : Vec α) (hl : lb.length = ub.length) (h : 
 
 /-- **Feasibility of the returned inputs**: every component of the returned `u` lies in the input box
     `U` (repeated over the stages), for every exit status at which results are written. -/
+theorem tauSentinelOK : TauSentinelOK α := by
+  constructor <;> simp [bne_iff_ne] <;> norm_num
+
+/-- **Exit contract with the explicit fuel bound**: over a linearly ordered field the hypotheses
+    `TauSentinelOK` and `fuelOut = false` of `ocp_exit_contract` are theorems (`FuelOK`, `Proofs/OcpFuel`). -/
+theorem ocp_exit_contract_fuelOK {D : Type} (O : Oracles α) (dir : Dir D α) (P : Prob α) (d0 : D)
+    (pr : Params α) (stop : Nat → Bool) (oot : Bool) (u0 y mu errz0 gV gQ : Vec α) (gS e0 : α)
+    (nL nτ : Nat) (hp : FuelOK pr nL nτ) :
+    ExitOK O P u0 y mu errz0 (run O dir P d0 pr stop oot u0 y mu errz0 gV gQ gS e0) :=
+  ocp_exit_contract O dir P d0 pr stop oot u0 y mu errz0 gV gQ gS e0 tauSentinelOK
+    (run_fuelOut_false O dir P d0 pr stop oot u0 y mu errz0 gV gQ gS e0 nL nτ hp)
+
+/-- …and `wrote ⇔ status` likewise. -/
+theorem ocp_wrote_iff_fuelOK {D : Type} (O : Oracles α) (dir : Dir D α) (P : Prob α) (d0 : D)
+    (pr : Params α) (stop : Nat → Bool) (oot : Bool) (u0 y mu errz0 gV gQ : Vec α) (gS e0 : α)
+    (nL nτ : Nat) (hp : FuelOK pr nL nτ)
+    (hex : (run O dir P d0 pr stop oot u0 y mu errz0 gV gQ gS e0).exc = .none)
+    (hcb : (run O dir P d0 pr stop oot u0 y mu errz0 gV gQ gS e0).callbacks ≠ []) :
+    (run O dir P d0 pr stop oot u0 y mu errz0 gV gQ gS e0).wrote =
+      ((run O dir P d0 pr stop oot u0 y mu errz0 gV gQ gS e0).stats.status == .Converged ||
+       (run O dir P d0 pr stop oot u0 y mu errz0 gV gQ gS e0).stats.status == .Interrupted ||
+       pr.alwaysOverwrite) :=
+  (ocp_wrote_iff O dir P d0 pr stop oot u0 y mu errz0 gV gQ gS e0 tauSentinelOK
+    (run_fuelOut_false O dir P d0 pr stop oot u0 y mu errz0 gV gQ gS e0 nL nτ hp)).1 hex hcb
+
 theorem ocp_u_out_in_U {D : Type} (hnn : ∀ x : α, RealLike.isNaN x = false)
     (O : Oracles α) (dir : Dir D α) (P : Prob α) (d0 : D) (pr : Params α)
     (stop : Nat → Bool) (oot : Bool) (u0 y mu errz0 gV gQ : Vec α) (gS e0 : α)
     (hU : BoxOK P.Ulb P.Uub) (hUl : P.Ulb.length = P.Uub.length)
-    (hfuel : (run O dir P d0 pr stop oot u0 y mu errz0 gV gQ gS e0).fuelOut = false)
+    (nL nτ : Nat) (hp : FuelOK pr nL nτ)
     (hw : (run O dir P d0 pr stop oot u0 y mu errz0 gV gQ gS e0).wrote = true) :
     InBoxV (tile P.N P.Ulb) (tile P.N P.Uub) (run O dir P d0 pr stop oot u0 y mu errz0 gV gQ gS e0).u := by
-  have hτ : TauSentinelOK α := by
-    constructor <;> simp [bne_iff_ne] <;> norm_num
   obtain ⟨⟨γ, u, g, hx⟩, _⟩ :=
-    (ocp_exit_contract O dir P d0 pr stop oot u0 y mu errz0 gV gQ gS e0 hτ hfuel).1 hw
+    (ocp_exit_contract_fuelOK O dir P d0 pr stop oot u0 y mu errz0 gV gQ gS e0 nL nτ hp).1 hw
   rw [hx]
   exact projStepV_feasible hnn γ u g _ _ (boxOK_tile P.N _ _ hUl hU)
+
+/-! #### One-sided / unbounded input boxes
+
+In the C++ an absent bound is `±inf`.  Over an ordered field it is represented by `none`
+(`Props/C15`: `clampO`, `InBoxO`, `Far`): a bound specification `b = (lb?, ub?, lb', ub')` carries the
+extended bounds and the finite stand-ins the field model computes with.  Where the stand-ins are *far
+enough for the step taken* (`FarAt`: `lb' ≤ x − γg` resp. `ub' ≥ max(x − γg, lb)` on infinite sides, equal to
+the bound on finite sides — exactly the condition under which `fmin(fmax(−γg, lb' − x), ub' − x)` computes
+what IEEE arithmetic computes with `∓inf`), the projected-gradient step is the projection onto the
+*extended* box. -/
+
+/-- `(extended lower, extended upper, finite lower stand-in, finite upper stand-in)` -/
+abbrev BndSpec (α : Type) := Option α × Option α × α × α
+
+def lbF (b : BndSpec α) : α := b.2.2.1
+def ubF (b : BndSpec α) : α := b.2.2.2
+
+/-- the stand-ins are far enough for the step `x ↦ x − γ g`, componentwise -/
+def FarAt (γ : α) : List (BndSpec α) → Vec α → Vec α → Prop
+  | b :: bs, x :: xs, g :: gs =>
+    C15.Far b.1 b.2.1 (x - γ * g) (C15.maxLbO b.1 (x - γ * g)) b.2.2.1 b.2.2.2 ∧ FarAt γ bs xs gs
+  | _, _, _ => True
+
+/-- `out` is, componentwise, the projection of `x − γ g` onto the extended box, and lies in it -/
+def IsClampO (γ : α) : List (BndSpec α) → Vec α → Vec α → Vec α → Prop
+  | b :: bs, x :: xs, g :: gs, o :: os =>
+    o = C15.clampO b.1 b.2.1 (x - γ * g) ∧ C15.InBoxO b.1 b.2.1 o ∧ IsClampO γ bs xs gs os
+  | _, _, _, [] => True
+  | _, _, _, _ :: _ => False
+
+/-- finite bounds are their own stand-ins -/
+def finiteSpec (lb ub : Vec α) : List (BndSpec α) :=
+  List.zipWith (fun l h => (some l, some h, l, h)) lb ub
+
+theorem farAt_finite (γ : α) (lb ub u g : Vec α) : FarAt γ (finiteSpec lb ub) u g := by
+  unfold finiteSpec
+  induction lb generalizing ub u g with
+  | nil => simp [FarAt]
+  | cons l ls ih =>
+    cases ub with
+    | nil => simp [FarAt]
+    | cons h hs =>
+      cases u with
+      | nil => simp [FarAt]
+      | cons x xs =>
+        cases g with
+        | nil => simp [FarAt]
+        | cons gi gs =>
+          simp only [List.zipWith_cons_cons, FarAt]
+          exact ⟨C15.Far.some l h _ _, ih hs xs gs⟩
+
+/-- **The projected-gradient step with infinite sides**: `u + p = Π_{U°}(u − γ g)` componentwise, in the
+    extended box. -/
+theorem projStepV_clampO (hnn : ∀ x : α, RealLike.isNaN x = false) (γ : α) (bs : List (BndSpec α))
+    (u g : Vec α) (hok : ∀ b ∈ bs, C15.BoxOK b.1 b.2.1) (hfar : FarAt γ bs u g) :
+    IsClampO γ bs u g (vadd u (projStepV γ u g (bs.map lbF) (bs.map ubF))) := by
+  induction bs generalizing u g with
+  | nil => cases u <;> cases g <;> simp [projStepV, vadd, vzip, IsClampO]
+  | cons b bs ih =>
+    cases u with
+    | nil => simp [projStepV, vadd, vzip, IsClampO]
+    | cons x xs =>
+      cases g with
+      | nil => simp [projStepV, vadd, vzip, IsClampO]
+      | cons gi gs =>
+        simp only [List.map_cons, projStepV, vadd, vzip, List.zipWith_cons_cons, IsClampO]
+        have h1 := projStep1_eq_proj hnn γ gi x (lbF b) (ubF b)
+        have h2 := C15.clamp_far b.1 b.2.1 (x - γ * gi) (lbF b) (ubF b) hfar.1
+        have h3 : x + projStep1 γ gi x (lbF b) (ubF b) = C15.clampO b.1 b.2.1 (x - γ * gi) := by
+          rw [h1, h2]
+        refine ⟨h3, ?_, ih xs gs (fun b' hb' => hok b' (List.mem_cons_of_mem _ hb')) hfar.2⟩
+        rw [h3]
+        exact C15.clampO_in_box b.1 b.2.1 (hok b (List.mem_cons_self ..)) _
+
+theorem tile_map {β γ' : Type} (N : Nat) (f : β → γ') (v : List β) :
+    (List.replicate N (v.map f)).flatten = ((List.replicate N v).flatten).map f := by
+  induction N with
+  | zero => simp
+  | succ n ih =>
+    rw [List.replicate_succ, List.replicate_succ, List.flatten_cons, List.flatten_cons, List.map_append, ih]
+
+/-- **Feasibility of the returned inputs for one-sided / unbounded input boxes**: whenever results are
+    written, the returned `u` is `û = u + p` of a projected-gradient step, and where the finite stand-ins
+    the field model computes with are far enough for that step (`FarAt`; automatic for finite bounds,
+    `farAt_finite`) it is the componentwise projection of `u − γ∇ψ` onto the extended box and lies in it. -/
+theorem ocp_u_out_in_extended_U {D : Type} (hnn : ∀ x : α, RealLike.isNaN x = false)
+    (O : Oracles α) (dir : Dir D α) (P : Prob α) (d0 : D) (pr : Params α)
+    (stop : Nat → Bool) (oot : Bool) (u0 y mu errz0 gV gQ : Vec α) (gS e0 : α)
+    (bs : List (BndSpec α)) (hlb : P.Ulb = bs.map lbF) (hub : P.Uub = bs.map ubF)
+    (hok : ∀ b ∈ bs, C15.BoxOK b.1 b.2.1) (nL nτ : Nat) (hp : FuelOK pr nL nτ)
+    (hw : (run O dir P d0 pr stop oot u0 y mu errz0 gV gQ gS e0).wrote = true) :
+    ∃ (γ : α) (u g : Vec α),
+      (run O dir P d0 pr stop oot u0 y mu errz0 gV gQ gS e0).u =
+        vadd u (projStepV γ u g (tile P.N P.Ulb) (tile P.N P.Uub)) ∧
+      (FarAt γ ((List.replicate P.N bs).flatten) u g →
+        IsClampO γ ((List.replicate P.N bs).flatten) u g
+          (run O dir P d0 pr stop oot u0 y mu errz0 gV gQ gS e0).u) := by
+  obtain ⟨⟨γ, u, g, hx⟩, _⟩ :=
+    (ocp_exit_contract_fuelOK O dir P d0 pr stop oot u0 y mu errz0 gV gQ gS e0 nL nτ hp).1 hw
+  refine ⟨γ, u, g, hx, fun hfar => ?_⟩
+  rw [hx]
+  have e1 : tile P.N P.Ulb = ((List.replicate P.N bs).flatten).map lbF := by
+    unfold tile; rw [hlb]; exact tile_map P.N lbF bs
+  have e2 : tile P.N P.Uub = ((List.replicate P.N bs).flatten).map ubF := by
+    unfold tile; rw [hub]; exact tile_map P.N ubF bs
+  show IsClampO γ _ u g (vadd u (projStepV γ u g (tile P.N P.Ulb) (tile P.N P.Uub)))
+  rw [e1, e2]
+  apply projStepV_clampO hnn γ _ u g _ hfar
+  intro b hb
+  rw [List.mem_flatten] at hb
+  obtain ⟨l, hl, hbl⟩ := hb
+  rw [List.mem_replicate] at hl
+  rw [hl.2] at hbl
+  exact hok b hbl
 
 /-- `write_solution`, one stage, in mathematical notation. -/
 def writeStageSpec : Vec α → Vec α → Vec α → Vec α → Vec α → Vec α × Vec α
@@ -220,6 +439,58 @@ example : (1/2 : ℚ) + projStep1 1 (-2) (1/2) (-1) 1 = 1 := by
 /-- one constrained stage, `c = 3`, `y = 1`, `μ = 2`, `D = [0, 2]`: `e = 3 − Π(3.5) = 1`, `y_out = 3`. -/
 example : writeStage ([3] : Vec ℚ) [1] [2] [0] [2] = ([1], [3]) := by
   simp [writeStage, emax, emin]; norm_num
+
+/-- a one-sided box `[0, +∞)` with stand-ins `(0, 10)`: the step from `x = 1` with `γ g = −3` lands at `4`,
+    the stand-in `10` is far enough, the result is the extended projection and lies in the extended box -/
+example : IsClampO (1 : ℚ) [(some 0, none, 0, 10)] [1] [-3]
+    (vadd [1] (projStepV 1 [1] [-3] [0] [10])) :=
+  projStepV_clampO (fun _ => rfl) 1 [(some 0, none, 0, 10)] [1] [-3]
+    (by intro b hb; simp at hb; subst hb; intro l h hl hh; simp at hh)
+    (by simp only [FarAt, C15.Far, C15.maxLbO]; norm_num)
 end examples
+
+/-! ### Non-vacuity on concrete runs of `Ocp.run` (`Proofs/OcpExample`) -/
+section run_examples
+open Alpaqa.Ocp.Example
+
+theorem fuelOK_prB : FuelOK prB 23 9 :=
+  ⟨by norm_num [prB, prA], by norm_num [prB, prA], by norm_num [prB, prA], fun _ => by norm_num [prB, prA],
+    by norm_num [prB, prA], by norm_num [prB, prA]⟩
+theorem fuelOK_prM : FuelOK prM 23 9 :=
+  ⟨by norm_num [prM, prA], by norm_num [prM, prA], by norm_num [prM, prA], fun _ => by norm_num [prM, prA],
+    by norm_num [prM, prA], by norm_num [prM, prA]⟩
+
+/-- the run `rB` (one stage constraint `x_t ∈ [-½, ½]`, `y = (2, ½)`, `μ = (2, 2)`): `Converged` after one
+    Gauss-Newton iteration, model fuel not exhausted, results written:
+    `u = (0, 0)`, `e = c − Π_D(c + y/μ) = (−½, −¼)`, `y_out = y + μ·e = (1, 0)` -/
+example : (rB none).stats.status = .Converged ∧ (rB none).stats.iterations = 1 ∧ (rB none).fuelOut = false ∧
+    (rB none).wrote = true ∧ (rB none).u = [0, 0] ∧ (rB none).errz = [-1/2, -1/4] ∧ (rB none).y = [1, 0] ∧
+    (rB none).exc = .none ∧ (rB none).callbacks.length = 2 := by
+  decide +kernel
+
+/-- all hypotheses of the exit-contract theorems instantiated on `rB` -/
+example : ExitOK OB PB [1, 1/2] yB muB [0, 0] (rB none) :=
+  ocp_exit_contract OB (dirOf 1 4) PB () prB (stopAt none) false [1, 1/2] yB muB [0, 0] [] [] 0 0
+    (by constructor <;> decide) (by decide +kernel)
+example : ExitOK OB PB [1, 1/2] yB muB [0, 0] (rB none) :=
+  ocp_exit_contract_fuelOK OB (dirOf 1 4) PB () prB (stopAt none) false [1, 1/2] yB muB [0, 0] [] [] 0 0
+    23 9 fuelOK_prB
+example : InBoxV (tile PB.N PB.Ulb) (tile PB.N PB.Uub) (rB none).u :=
+  ocp_u_out_in_U (fun _ => rfl) OB (dirOf 1 4) PB () prB (stopAt none) false [1, 1/2] yB muB [0, 0] [] [] 0 0
+    (by simp [PB, BoxOK]) rfl 23 9 fuelOK_prB (by decide +kernel)
+example : (rB none).wrote = ((rB none).stats.status == .Converged || (rB none).stats.status == .Interrupted ||
+    prB.alwaysOverwrite) :=
+  ocp_wrote_iff_fuelOK OB (dirOf 1 4) PB () prB (stopAt none) false [1, 1/2] yB muB [0, 0] [] [] 0 0
+    23 9 fuelOK_prB (by decide +kernel) (by decide +kernel)
+
+/-- `rM`: zero iteration budget, `always_overwrite_results = false` → `MaxIter`, `wrote = false`, the
+    caller's `u`, `y`, `err_z` untouched (`ocp_untouched`) -/
+example : rM.stats.status = .MaxIter ∧ rM.wrote = false ∧ rM.u = [1, 1/2] ∧ rM.y = [7] ∧ rM.errz = [9] := by
+  decide +kernel
+example : rM.u = [1, 1/2] ∧ rM.y = [7] ∧ rM.errz = [9] :=
+  ocp_untouched OA (dirOf 1 3) PA () prM (stopAt none) false [1, 1/2] [7] [8] [9] [] [] 0 0
+    (by constructor <;> decide) (by decide +kernel) (by decide +kernel)
+
+end run_examples
 
 end Alpaqa.Props.C03_Ocp
